@@ -13,7 +13,8 @@ R5 = [d for d in rows if rows[d].get("round") == 5]
 R6 = [d for d in rows if rows[d].get("round") == 6]
 R7 = [d for d in rows if rows[d].get("round") == 7]
 R8 = [d for d in rows if rows[d].get("round") == 8]
-R12 = [d for d in rows if d not in R3 and d not in R4 and d not in R5 and d not in R6 and d not in R7 and d not in R8]
+R9 = [d for d in rows if rows[d].get("round") == 9]
+R12 = [d for d in rows if d not in R3 and d not in R4 and d not in R5 and d not in R6 and d not in R7 and d not in R8 and d not in R9]
 
 
 def table(names):
@@ -39,7 +40,8 @@ out = ["# Seeded breaking changes (written independently by sub-agents)\n",
        "| 5 | 36 | 9 | 27 | " + " ".join(d for d in R5 if rows[d]["detected_by"].startswith("missed")) + " |",
        "| 6 | 36 | 8 | 19 | " + " ".join(d for d in R6 if rows[d]["detected_by"].startswith("missed")) + " |",
        "| 7 | 36 | %d | %d | " % (first_contact(R7), sum(1 for d in R7 if not rows[d]["detected_by"].startswith("missed"))) + " ".join(d for d in R7 if rows[d]["detected_by"].startswith("missed")) + " |",
-       "| 8 | 36 | %d | %d | " % (first_contact(R8), sum(1 for d in R8 if not rows[d]["detected_by"].startswith("missed"))) + " ".join(d for d in R8 if rows[d]["detected_by"].startswith("missed")) + " |\n",
+       "| 8 | 36 | %d | %d | " % (first_contact(R8), sum(1 for d in R8 if not rows[d]["detected_by"].startswith("missed"))) + " ".join(d for d in R8 if rows[d]["detected_by"].startswith("missed")) + " |",
+       "| 9 | 36 | %d | %d | " % (first_contact(R9), sum(1 for d in R9 if not rows[d]["detected_by"].startswith("missed"))) + " ".join(d for d in R9 if rows[d]["detected_by"].startswith("missed")) + " |\n",
        "## Rounds 1 and 2 (18 seeds, one per claimed property)\n",
        "First contact: 4 of 18 (C07-1, C10-1, C14-1, C19-1). For 13 of the 14 misses a structural or relational necessary condition exists and a",
        "rule was added (each run program-wide and read for false reports before arming); C11-1 stays missed (which slots the compaction may drop",
@@ -75,6 +77,12 @@ out += ["\n## Round 8 (36 seeds: per property one ordering / missing-step slip a
         "additions (ADDREFFAIL, LENSPEC, CXXCOW, FINIFIRST, UNSIGNEDTEXT position, stricter ERRFX excuse, per-test RESULTCLASS, IDENTOVERLAY for C05,",
         "FINIMATCH for C15, LINBOUNDS for C03); 13 stay missed.\n"]
 out += table(R8)
+out += ["\n## Round 9 (36 seeds: per property one resource / ownership slip and one interface slip)\n",
+        "First contact: 11 of 36. Nine more after additions: the reference table of returned and passed constants (CONSTIFACE) reports five interface",
+        "slips (an error code that became success, a result code that vanished, a sizeof of the wrong member, a flag word replaced by 0), DETACHSAME,",
+        "MUSTINSTALL and STABLETABLE report three ownership slips, ERRFX with split conditional returns one more. 16 stay missed: most are ownership",
+        "questions between two parties (who releases, in which order, may the source alias the target) that no rule of this framework states.\n"]
+out += table(R9)
 out.append("\n## Behaviour-preserving refactorings (false-alarm test)\n")
 out.append("Eight further agents produced 40 behaviour-preserving refactorings (renames, loop rewrites, helper extraction, condition restructuring,")
 out.append("temporaries) in the files with the densest rules, each with a differential driver showing identical behaviour. `tools/benign_test.sh` runs")
